@@ -104,7 +104,8 @@ Inductive cphase :=
 | C_IN (key off wlen pid : N)      (* data stage IN: what is returned (key), how much of it has been ACKed, wLength, next PID byte *)
 | C_IN_STATUS                      (* data stage complete: the OUT status packet must be ACKed *)
 | C_OUT_DATA (rem pid : N)         (* SET_LINE_CODING data stage: bytes still to come, next host PID byte *)
-| C_OUT_STATUS (eff : N)           (* status stage IN must be a zero-length DATA1; eff: 0 nothing, 1+a new address, 256+c new configuration *)
+| C_OUT_STATUS (eff : N)           (* status stage IN must be a zero-length DATA1; eff: 0 nothing, 1+a new address, 256+c new configuration,
+                                      512 / 513: the data OUT / IN endpoint's toggle restarts at DATA0, 514: no effect *)
 | C_STALL                          (* must be STALLed at the first data / status opportunity *)
 | C_ANY.                           (* a request the statement says nothing about: not judged until the next SETUP *)
 
@@ -149,6 +150,9 @@ Definition ctl_data (P : sparams) (cfg key wlen : N) : list N :=
               else match lookup key (sp_desc P) with Some d => d | None => [] end in
   firstn (N.to_nat wlen) full.
 
+Definition EFF_CLEAR_OUT : N := 512.
+Definition EFF_CLEAR_IN : N := 513.
+Definition EFF_CLEAR_OTHER : N := 514.
 (* which obligations a SETUP packet creates *)
 Definition classify_request (P : sparams) (req : N) : cphase :=
   let bm := rq_byte req 0 in let br := rq_byte req 1 in
@@ -163,7 +167,12 @@ Definition classify_request (P : sparams) (req : N) : cphase :=
     else if (bm =? 0) && (br =? 5) && (wlength =? 0) then C_OUT_STATUS (1 + wvalue mod 128)
     else if (bm =? 0) && (br =? 9) && (wlength =? 0) then C_OUT_STATUS (256 + wvalue mod 256)
     else if (bm =? 128) && (br =? 8) && (wlength =? 1) then C_IN KEY_CONFIG 0 wlength DATA1B
-    else if (bm =? 128) && (br =? 0) && (wlength =? 2) then C_IN KEY_STATUS 0 wlength DATA1B
+    else if ((bm =? 128) || (bm =? 129) || (bm =? 130)) && (br =? 0) && (wlength =? 2) then C_IN KEY_STATUS 0 wlength DATA1B
+    else if (bm =? 2) && (br =? 1) && (wvalue =? 0) && (wlength =? 0) then
+      (* CLEAR_FEATURE(ENDPOINT_HALT), recipient endpoint wIndex: accepted; it restarts the data toggle of exactly that endpoint
+         and direction, and nothing else *)
+      let windex := rq_word req 4 in
+      C_OUT_STATUS (if windex mod 16 =? EP_DATA then (if (windex / 128) mod 2 =? 0 then EFF_CLEAR_OUT else EFF_CLEAR_IN) else EFF_CLEAR_OTHER)
     else C_ANY
   else if typ =? 1 then
     if br =? 32 then
@@ -228,8 +237,11 @@ Definition on_host_packet (P : sparams) (s : sstate) (pkt : list N) : option sst
             match z_ctl s with
             | C_OUT_STATUS eff =>
                 let addr := if (1 <=? eff) && (eff <? 256) then eff - 1 else z_addr s in
-                let cfg := if 256 <=? eff then eff - 256 else z_cfg s in
-                Some (upd 0 C_IDLE P_NONE (z_otog s) (z_itog s) (z_outq s) (z_tent s) (z_inq s) addr cfg)
+                let cfg := if (256 <=? eff) && (eff <? 512) then eff - 256 else z_cfg s in
+                (* CLEAR_FEATURE(ENDPOINT_HALT): only the addressed direction of the data endpoint restarts at DATA0 *)
+                let otog := if eff =? EFF_CLEAR_OUT then 0 else z_otog s in
+                let itog := if eff =? EFF_CLEAR_IN then 0 else z_itog s in
+                Some (upd 0 C_IDLE P_NONE otog itog (z_outq s) (z_tent s) (z_inq s) addr cfg)
             | c => Some (keep 0 c P_NONE)
             end
         | _ => Some (keep 0 (z_ctl s) P_NONE)
